@@ -408,7 +408,15 @@ func checkC10(c *Ctx) {
 				}
 				sort.Slice(ks, func(i, j int) bool { return ks[i] < ks[j] })
 				for _, k := range ks {
-					for _, m := range modes {
+					ms := modes
+					if t.class == "cat-file-batch" && k < t.L {
+						// the stream of `cat-file --batch` is self-describing (announced sizes, as many objects as were asked
+						// for): when it ends early a required object is missing, even if the process reports success. (For
+						// the line-oriented commands an early end with status 0 cannot be told from a shorter answer; that
+						// is outside the fault model of the property.)
+						ms = append(append([]string(nil), modes...), "exit0")
+					}
+					for _, m := range ms {
 						where := "middle"
 						if k == 0 {
 							where = "before"
